@@ -137,6 +137,11 @@ def make_shape(rnd, tmp, k, focus=False):
             f.write(txt.rstrip('\n') + rnd.choice(['\n\n\n', '\n\n\n\n', '', '\n\n', '\n   \n\n']))
         shape['settings_ending'] = True
     if rnd.random() < .3:
+        # the user's own .gitignore (patterns spelled their way, or statements tracked on purpose)
+        with open(os.path.join(base, '.gitignore'), 'w') as f:
+            f.write(rnd.choice(['/data/\noutput\n', 'data/*\n!data/keep.csv\n', '*.bak\n', '# track everything\n']))
+        shape['user_gitignore'] = True
+    if rnd.random() < .3:
         with open(os.path.join(base, 'notes.txt'), 'w') as f:
             f.write('user notes\n')
     return b, root, cfg, base, shape
@@ -157,6 +162,9 @@ def commands(rnd, b, root, cfg, base, shape):
         ('diag', ['diag', cfg]), ('diag', ['diag', cfg, '--format', 'json']), ('inspect', ['inspect', data_file]), ('inspect', ['inspect', data_file, '-n', '2']),
         ('init', ['init']) if shape['layout'] == 'old' else ('init', ['init', 'tally']), ('init', ['init', base]),
         ('migrate', ['up', cfg, '--migrate', '-q']), ('migrate', ['up', cfg, '--migrate', '--format', 'summary']),
+        # a NEW budget is initialised somewhere else while standing in this one (also with the config directory named through the environment)
+        ('init', ['init', os.path.join(root, 'elsewhere-%d' % rnd.randrange(1000))]), ('init', ['init', os.path.join('..', 'other-budget-%d' % rnd.randrange(10 ** 6))]),
+        ('init', ['ENV:TALLY_CONFIG=' + cfg, 'init', os.path.join(root, 'elsewhere-env-%d' % rnd.randrange(1000))]),
     ]
     n = rnd.randint(3, 8)
     seq = [rnd.choice(pool) for _ in range(n)]
@@ -300,7 +308,8 @@ def judge(rec, rnd, tmp, k, log, focus=False):
             judge_readonly(rec, kind, args, before, after, effects, root, base, case)
         elif kind == 'init':
             rec.count('init_runs')
-            target_is_budget = (args == ['init'] and shape['layout'] == 'old') or (len(args) == 2 and os.path.realpath(os.path.join(cwd, args[1])) == os.path.realpath(base))
+            plain = [a for a in args if not a.startswith('ENV:')]
+            target_is_budget = (plain == ['init'] and shape['layout'] == 'old') or (len(plain) == 2 and os.path.realpath(os.path.join(cwd, plain[1])) == os.path.realpath(base))
             if target_is_budget:
                 judge_init(rec, args, before, after, effects, root, base, case, had_rules_csv, had_rules_file)
                 settings_append_only(rec, root, os.path.join(cfg_rel, 'settings.yaml'), settings_old, case, 'init')
